@@ -3,10 +3,20 @@ import SccacheModel.Model.TcCache
 namespace DrvTc
 open TcM
 
-/-! diff of `tcStepPinned` against the real `dist::TcCache` (uploads honest or not, removals, reopen), and of the
+/-! diff of `tcStepFixed` against the real `dist::TcCache` (uploads honest or not, removals, reopen), and of the
     `Result` of `insert_with` against "digest matches id" -/
 def showStore (s : Store) : String :=
   ",".intercalate ((List.range 4).map fun i => s!"{i}:{match s i with | some d => toString d | none => "-"}")
+def parseOp (o : String) : Option TcOp × Bool :=
+  if o.startsWith "iw" then
+    match ((o.drop 2).dropEnd 1).toString.splitOn "," with
+    | [i, c] => (some (.insertWith i.toNat! c.toNat!), (o.endsWith "+") == (i == c))
+    | _ => (none, false)
+  else if o.startsWith "rm" then (some (.remove (o.drop 2).toString.toNat!), true)
+  else if o.startsWith "ev" then (some (.evict (o.drop 2).toString.toNat!), true)
+  else if o == "ro" then (some .reopen, true)
+  else (none, false)
+
 partial def loop (h : IO.FS.Stream) (n bad steps : Nat) : IO (Nat × Nat × Nat) := do
   let line ← h.getLine
   if line.isEmpty then return (n, bad, steps)
@@ -16,21 +26,19 @@ partial def loop (h : IO.FS.Stream) (n bad steps : Nat) : IO (Nat × Nat × Nat)
     let stl := states.splitOn " "
     let mut s : Store := fun _ => none
     let mut ok := true
-    for (o, st) in opl.zip stl do
-      let (op, resOk) : Option TcOp × Bool :=
-        if o.startsWith "iw" then
-          match ((o.drop 2).dropEnd 1).toString.splitOn "," with
-          | [i, c] => (some (.insertWith i.toNat! c.toNat!), (o.endsWith "+") == (i == c))
-          | _ => (none, false)
-        else if o.startsWith "rm" then (some (.remove (o.drop 2).toString.toNat!), true)
-        else (some .reopen, true)
-      match op with
-      | some op =>
-        s := tcStepPinned s op
-        if showStore s != st || !resOk then
-          ok := false
-          IO.println s!"MISMATCH {n} at {o}: real {st} model {showStore s} resultOk={resOk}"
-      | none => ok := false
+    for (step, st) in opl.zip stl do
+      -- a step is `ev<j>/…/<op>`: evictions observed during the operation, then the operation itself
+      for o in step.splitOn "/" do
+        match parseOp o with
+        | (some op, resOk) =>
+          s := tcStepFixed s op
+          if !resOk then
+            ok := false
+            IO.println s!"MISMATCH {n} at {o}: result of the upload is not `digest matches id`"
+        | (none, _) => ok := false; IO.println s!"MISMATCH {n}: bad-op {o}"
+      if showStore s != st then
+        ok := false
+        IO.println s!"MISMATCH {n} at {step}: real {st} model {showStore s}"
     loop h (n + 1) (if ok then bad else bad + 1) (steps + opl.length)
   | _ => loop h (n + 1) (bad + 1) steps
 def main : IO Unit := do
